@@ -21,6 +21,7 @@ import RV.Base.Proto
                          (`!` = raises TypeError); a valued literal A is  <lex> <dt|-> <lang|-> <val> <ill 0|1>  with
                          <val> = - (None) | s:<str> | b:<0|1> | n:<num>/<den> | pinf | ninf | nan | t:<wall µs>/<offset µs|-> | d:<ordinal>
     vsort A1 … An     -> the literals sorted with `<`, each printed as a term, separated by ` ; `
+    msort X1 … Xn     -> a MIXED list sorted with `<`; X = a non-literal term (I|G|R|B|V <str>) or `W` + a valued literal
 -/
 open RV RV.C07 RV.Proto
 
@@ -116,6 +117,19 @@ partial def vlits? (ws : List String) : Option (List VLit) :=
     let ts ← vlits? rest
     pure (t :: ts)
 
+partial def vterms? (ws : List String) : Option (List VTerm) :=
+  match ws with
+  | [] => some []
+  | "W" :: rest => do
+    let (a, rest') ← vlit? rest
+    let ts ← vterms? rest'
+    pure (.lit a :: ts)
+  | c :: x :: rest => do
+    let c ← cls? c; let x ← str? x
+    let ts ← vterms? rest
+    pure (.node c x :: ts)
+  | _ => none
+
 def b01 (b : Bool) : String := if b then "1" else "0"
 
 def showErr : Err → String
@@ -196,6 +210,10 @@ def step (s : Unit) : List String → Unit × String
   | "vsort" :: rest =>
     match vlits? rest with
     | some ts => (s, " ; ".intercalate ((sortV ts).map (fun a => showTerm a.term)))
+    | none => (s, "bad-op")
+  | "msort" :: rest =>
+    match vterms? rest with
+    | some ts => (s, " ; ".intercalate ((sortVT ts).map (fun x => showTerm x.term)))
     | none => (s, "bad-op")
   | _ => (s, "bad-op")
 
